@@ -7,13 +7,16 @@
    and kind-sound: C03 + Memfs/Kinds.v, both proved for every call) each of these calls returns exactly the reference
    call's value or error kind and leaves exactly the reference call's tree. move_p is specified exactly and proved in
    Memfs/WfMove.v (C09). remove_all (Memfs/RemoveAll.v) always
-   succeeds off the root, with exactly the subtree gone. PARTIAL: copy, chmod and chown are compared with the real code state-for-state
+   succeeds off the root, with exactly the subtree gone. A single-target call that reports failure (mkfile, mkdir_p / mkdir_m,
+   write_all, append_all, remove, symlink, set_cwd, move_p) leaves the three indexes exactly as they were (Memfs/MkdirFail.v:
+   for mkdir, a failure can only come from an existing non-directory prefix, before anything was created). chown without
+   follow refines the reference chown (Memfs/RefineChown.v). PARTIAL: copy, chmod and chown with follow are compared with the real code state-for-state
    and judged on pre/post snapshots, and proved safe (no panic, well formed, kind-sound), but their reference-level
    specification is not yet a theorem. *)
 From stdpp Require Import gmap.
 From Coq Require Import NArith.
 From RV Require Import Base.Str Path.Helpers Path.Expand Memfs.State Memfs.Ops Memfs.Step Memfs.Wf Memfs.WfMore Memfs.WfMove
-  Memfs.ContentFacts Memfs.MoveFacts Memfs.Spec Memfs.Refine Memfs.Kinds Memfs.RemoveAll Memfs.RefineMore Macros.Asserts.
+  Memfs.ContentFacts Memfs.MoveFacts Memfs.Spec Memfs.Refine Memfs.Kinds Memfs.RemoveAll Memfs.RefineMore Memfs.MkdirFail Memfs.RefineChown Memfs.Walk Memfs.WalkOps Macros.Asserts.
 
 Theorem C01_step_no_panic : forall env m o, step env m o <> Panic.
 Proof. exact step_no_panic. Qed.
@@ -108,3 +111,18 @@ Print Assumptions C01_write_replaces.
 Theorem C01_failed_move_validation_frame : forall env m s d e, move_validation env m s d = inr e -> move_op env m s d = Done (m, inr e).
 Proof. exact move_validation_complete. Qed.
 Print Assumptions C01_failed_move_validation_frame.
+
+(* a single-target call that reports failure leaves the state exactly as it was *)
+Theorem C01_failed_call_unchanged : forall env m o m' e, WF m -> single_target o = true -> step env m o = Done (m', inr e) -> m' = m.
+Proof. exact failed_call_unchanged. Qed.
+Print Assumptions C01_failed_call_unchanged.
+
+Theorem C01_mkdir_failure_unchanged : forall m p mode m' e, WF m -> mkdir_m_abs m p mode = (m', inr e) -> m' = m.
+Proof. exact mkdir_failure_unchanged. Qed.
+Print Assumptions C01_mkdir_failure_unchanged.
+
+(* chown without follow against the reference tree *)
+Theorem C01_chown_refines : forall env m s o p r, WF m -> co_follow o = false -> resolve env m s = inl p -> m_ents m !! p = Some r ->
+  exists m', chown_op env m s o = Done (m', inl tt) /\ abs m' = spec_chown (abs m) p (co_recursive o) (co_uid o) (co_gid o).
+Proof. exact chown_refines. Qed.
+Print Assumptions C01_chown_refines.
